@@ -637,5 +637,17 @@ def r5(fx, chk):
             for j in range(5):
                 want[sh + j] = (inputs[k], j)
         good = code.routing() == want and code.bits[15] == 0
+    # straight-line shifts / masks / adds over `lang.next().unwrap_or(0)` are the evaluator's vocabulary; a packing written with
+    # closures, loops or other iterator adapters is not
+    KNOWN_M = ("next", "unwrap_or", "encode_utf16", "into", "unwrap_or_default", "as_bytes", "bytes", "chars")
+    exotic = [n for n, _ in hirq.walk(hirq.body_root(enc)) if n.get("k") in ("closure", "for", "while", "loop", "match") or (n.get("k") == "mcall" and n.get("m") not in KNOWN_M)]
+    unreadable = bool(exotic) and (code is None or not inputs or len(inputs) != 3)
+    if unreadable:
+        # the packing is not written as shifts / masks / ors of successive code units that the bit evaluator can follow
+        # (e.g. a fold over the units): outside the vocabulary, listed, not reported
+        chk.analysed.setdefault("tables_not_compared", []).append("language_code")
+        chk.ok("R5", "encode", "not compared: the encoder expression is outside the bit evaluator's vocabulary", site_of(enc))
+        chk.ok("R5", "inverse", "not compared (encoder not readable)", site_of(enc))
+        return
     chk.require(good, "R5", "encode", "three 5-bit groups at 10/5/0, pad bit 0", "language_code packs %r; expected (c0&0x1F)<<10 | (c1&0x1F)<<5 | (c2&0x1F)" % code, site_of(enc))
     chk.require(ok and good, "R5", "inverse", "encode(decode(x)) == x on the 15 payload bits", "language encoder and decoder are not mutually inverse", site_of(enc))
